@@ -167,6 +167,8 @@ def toidentifier(value):
             return "neg" + str(-value)
         return str(value)
     elif isinstance(value, float):
+        if math.isnan(value):
+            return "nan"
         try:
             intvalue = int(value)
         except OverflowError:
@@ -184,6 +186,8 @@ def toidentifier(value):
         assert value.isidentifier(), value
         return value
     elif isinstance(value, numpy.floating):
+        if numpy.isnan(value):
+            return "nan"
         try:
             intvalue = int(value)
         except OverflowError:
